@@ -260,9 +260,14 @@ pub fn date_from_rfc2822(params: &[Value]) -> NativeResult {
 pub fn date_to_rfc2822(params: &[Value]) -> NativeResult {
     match params {
         [value] => {
-            let datetime = NaiveDateTime::try_from(value)?;
+            let datetime = naive_to_fixed(NaiveDateTime::try_from(value)?)?;
 
-            Ok(Value::String(naive_to_fixed(datetime)?.to_rfc2822()))
+            // `to_rfc2822()` panics for years which RFC 2822 can not represent
+            if !(0..=9999).contains(&datetime.year()) {
+                return Err(NativeError::from("year out of range for RFC 2822"));
+            }
+
+            Ok(Value::String(datetime.to_rfc2822()))
         }
         _ => Err(NativeError::WrongParameterCount(1)),
     }
